@@ -22,7 +22,7 @@ Part C  (E2) random users: `numpy.random.random_sample` is a scripted seam; ever
         exceeds the horizon is reported as a livelock.  Bounds (measured cost:
         17k..98k executions per configuration at D=4): quick D<=2 with two users on
         a covering set of 210 configurations (+36 with two users), D<=3 on 36, D<=4
-        on 2; thorough D<=2 and D<=3 on all 1782, D<=4 on 216, D<=5 on 6 -- the
+        on 2; thorough D<=2 and D<=3 on all 1782, D<=4 on 108, D<=5 on 4 -- the
         evidence lists them.
 Part D  (E1) clusters: sizes x cell types x radii x positions x rotations:
         congruent cells, centroid, nearest-neighbour distance, shared edges, no
@@ -55,7 +55,7 @@ from vmc import common
 from vmc.choice import Ctx, Horizon, check_determinism
 from vmc.parallel import run_shards, shard
 from vmc.report import Broken, Check
-from vmc.seams import ScriptedUniform, patched
+from vmc.seams import ScriptedUniform
 
 PID = "C19"
 LEVEL = "exploration"
@@ -515,7 +515,8 @@ def default_draws():
 
 DEFAULTS = default_draws()
 RANDOM_KINDS = [("Cell", 0), ("CellSquare", 0), ("Cell3Sec", 0), ("Cell3Sec", 1), ("Cell3Sec", 2), ("Cell3Sec", 3)]
-HORIZON = 2 * NDIR * 2 + 32
+HORIZON = 2 * NDIR * 2 + 32     # scripted choice points per execution
+HARD_LIMIT = 4000                # draws after which a placement counts as not terminating
 
 
 def random_jobs(tier):
@@ -526,8 +527,8 @@ def random_jobs(tier):
     if tier == "thorough":
         plan = [(RANDOM_KINDS, full, ROT, MIN_DIST, 2, 2),
                 (RANDOM_KINDS, full, ROT, MIN_DIST, 1, 3),
-                (RANDOM_KINDS, diag, [0, 45, 17, 123.4], MIN_DIST, 1, 4),
-                (RANDOM_KINDS, diag[1:2], [45], [0.3], 1, 5)]
+                (RANDOM_KINDS, diag, [45, 17], MIN_DIST, 1, 4),
+                (RANDOM_KINDS[:4], diag[1:2], [45], [0.3], 1, 5)]
     else:
         # covering: every kind x rotation x min_dist with the (pos, radius) pair cycling; deeper on a few
         for kind, sector in RANDOM_KINDS:
@@ -629,7 +630,20 @@ def make_random_run(chk, cfg, nusers, region, record=None, fails=None):
 
         st = [0, False]       # [index into `cycle` of the current default direction, x of this attempt deviated]
 
+        tail = [None]
+
         def answer(k):
+            if k > HORIZON:
+                # beyond the scripted horizon the answers come from a private seeded generator: a correct
+                # rejection sampler then terminates however it maps draws to candidates; a loop that still runs
+                # after HARD_LIMIT draws does not terminate for this answer stream
+                if k > HARD_LIMIT:
+                    raise Horizon("no user accepted after %d draws" % HARD_LIMIT)
+                if tail[0] is None:
+                    tail[0] = np.random.RandomState(20261004)
+                val = float(tail[0].random_sample())
+                draws.append(val)
+                return val
             isx = (k % 2 == 1)
             c = ctx.choose(len(ALPHA) + 1, "x" if isx else "y")
             val = DEFAULTS[2 * cycle[st[0]] + (0 if isx else 1)] if c == 0 else ALPHA[c - 1]
@@ -643,7 +657,7 @@ def make_random_run(chk, cfg, nusers, region, record=None, fails=None):
         su = ScriptedUniform(answer)
         livelock = False
         try:
-            with patched((np.random, "random_sample", su.random_sample)):
+            with su.installed(restore_state=False):
                 if sector:
                     obj.add_random_users_in_sector(nusers, sector, None, md)
                 else:
@@ -654,8 +668,9 @@ def make_random_run(chk, cfg, nusers, region, record=None, fails=None):
         chk.count("eval_placement_executions")
         if livelock:
             fail(("random_user", kind, "rejection_loop_never_accepts"), case,
-                 observed="more than %d draws" % HORIZON,
-                 expected="an acceptable default draw is offered within %d attempts" % NDIR)
+                 observed="no user accepted within %d draws" % HARD_LIMIT,
+                 expected="termination: acceptable candidates are offered by the default stream and, after %d "
+                          "scripted draws, by a seeded uniform generator" % HORIZON)
             return True
         users = list(obj.users)
         if len(users) != nusers:
@@ -688,8 +703,8 @@ def make_random_run(chk, cfg, nusers, region, record=None, fails=None):
                     accepted.append(j)
                     break
             else:
-                fail(("random_user", "position_not_from_draws", kind), case, observed=p,
-                     expected="pos + 2(u-0.5) r for a pair of consecutive draws")
+                # how the library maps draws to candidates is not part of the property: recorded only
+                chk.count("placements_not_matching_a_consecutive_draw_pair")
         chk.count("placed_users", len(users))
         if nattempts > nusers or ctx.deviations:
             chk.count("nontrivial_placements")
@@ -941,17 +956,9 @@ def run_distances(chk, cl, cells, P, n, ctype, r, rot, case):
     sig0 = ("distance_matrix", ctype)
     for stage in ("no_users", "users"):
         if stage == "users":
-            k = [0]
-
-            def answer(_):
-                k[0] += 1
-                if k[0] > 2 * NDIR * (3 * n + 4):
-                    raise Horizon("rejection loop of Cluster.add_random_users never accepts a default draw")
-                return DEFAULTS[(k[0] - 1) % len(DEFAULTS)]
-
-            su = ScriptedUniform(answer)
+            su = scripted_defaults(2 * NDIR * (3 * n + 4))
             ids = list(range(1, n + 1))
-            with patched((np.random, "random_sample", su.random_sample)):
+            with su.installed(restore_state=False):
                 cl.add_random_users(ids[0], 2, None, 0.3)
                 if n > 1:
                     cl.add_random_users(ids[1:], [1 + (i % 2) for i in ids[1:]], None, 0.0)
@@ -1011,8 +1018,8 @@ def run_pp(chk, fn, npts, a, b, only=None):
         case = dict(case0, draws=list(vec))
         with chk.guard(("pointprocess", fn), case):
             seq = [ALPHA[i] for i in vec]
-            su = ScriptedUniform(lambda k: seq[k - 1])
-            with patched((np.random, "random_sample", su.random_sample)):
+            su = ScriptedUniform(lambda k: seq[(k - 1) % len(seq)])
+            with su.installed(restore_state=False):
                 if fn == "circle":
                     rmin = 0.0 if b is None else b * a
                     pts = pp.generate_random_points_in_circle(npts, a) if b is None else \
@@ -1021,9 +1028,9 @@ def run_pp(chk, fn, npts, a, b, only=None):
                     pts = pp.generate_random_points_in_rectangle(npts, a, b)
             chk.count("eval_point_process_calls")
             pts = np.asarray(pts)
-            if pts.shape != (npts,) or su.draws != 2 * npts:
-                chk.fail(("pointprocess", fn, "shape_or_draws"), case, observed=(pts.shape, su.draws),
-                         expected=((npts,), 2 * npts))
+            chk.outcome("pp_draws_per_call", (fn, npts, su.draws))
+            if pts.shape != (npts,):
+                chk.fail(("pointprocess", fn, "number_of_points"), case, observed=pts.shape, expected=(npts,))
                 continue
             if fn == "circle":
                 d = np.abs(pts)
@@ -1082,11 +1089,18 @@ def scripted_defaults(limit=10 * NDIR, lead=()):
     """the cyclic default stream, optionally preceded by the draws `lead` (e.g. (0.5, 0.5) = the cell centre,
     which a positive min_dist_ratio must reject)"""
     k = [0]
+    tail = [None]
 
     def answer(_):
         k[0] += 1
         if k[0] > limit:
-            raise Horizon("rejection loop never accepts a default draw")
+            # termination is judged independently of how the library maps draws to candidates: after `limit`
+            # default draws a private seeded uniform generator answers; HARD_LIMIT more draws = no termination
+            if k[0] > limit + HARD_LIMIT:
+                raise Horizon("rejection loop does not terminate")
+            if tail[0] is None:
+                tail[0] = np.random.RandomState(20261004)
+            return float(tail[0].random_sample())
         if k[0] <= len(lead):
             return lead[k[0] - 1]
         return DEFAULTS[(k[0] - 1 - len(lead)) % len(DEFAULTS)]
@@ -1128,7 +1142,7 @@ def place_users(kind, obj):
         return []
     n0 = len(obj.users)
     su = scripted_defaults()
-    with patched((np.random, "random_sample", su.random_sample)):
+    with su.installed(restore_state=False):
         obj.add_random_user(None, 0.3)
         if base == "Cell3Sec":
             for k in (1, 2, 3):
@@ -1372,13 +1386,13 @@ def run_pp_aliasing(chk):
         outs = []
         for _ in range(2):
             su = scripted_defaults(100)
-            with patched((np.random, "random_sample", su.random_sample)):
+            with su.installed(restore_state=False):
                 outs.append((pp.generate_random_points_in_circle(3, 2.0, 0.5),
                              pp.generate_random_points_in_rectangle(3, 4.0, 1.0)))
         outs[0][0][:] = 0
         outs[0][1][:] = 0
         su = scripted_defaults(100)
-        with patched((np.random, "random_sample", su.random_sample)):
+        with su.installed(restore_state=False):
             third = (pp.generate_random_points_in_circle(3, 2.0, 0.5), pp.generate_random_points_in_rectangle(3, 4.0, 1.0))
         if not (np.array_equal(third[0], outs[1][0]) and np.array_equal(third[1], outs[1][1])):
             chk.fail(("aliasing", "pointprocess", "results_shared_between_calls"), case, observed=third, expected=outs[1])
@@ -1411,7 +1425,7 @@ def run_dtypes(chk, kind, form):
                 ids = np.array([1, 2, 3, 2])[::2] if form != "pyint" else [1, 3]
                 nums = np.array([2, 1]) if form != "pyint" else [2, 1]
                 su = scripted_defaults(400)
-                with patched((np.random, "random_sample", su.random_sample)):
+                with su.installed(restore_state=False):
                     try:
                         a.add_random_users(ids, nums, None, np.array([0.0, 0.3]) if form != "pyint" else [0.0, 0.3])
                     except AssertionError as e:
@@ -1470,10 +1484,10 @@ def run_dtypes(chk, kind, form):
             if len(pa) != 3 or max(abs(x - y) for x, y in zip(pa, pb)) > TOL * r:
                 chk.fail(("dtypes", kind, "add_border_user_integer_angles"), case, observed=pa, expected=pb)
             su = scripted_defaults()
-            with patched((np.random, "random_sample", su.random_sample)):
+            with su.installed(restore_state=False):
                 a.add_random_users(2 if form == "np_float64" else conv(2), None, conv(0))
             su = scripted_defaults()
-            with patched((np.random, "random_sample", su.random_sample)):
+            with su.installed(restore_state=False):
                 b.add_random_users(2, None, 0.0)
             pa, pb = [complex(u.pos) for u in a.users], [complex(u.pos) for u in b.users]
             if len(pa) != 5 or max(abs(x - y) for x, y in zip(pa, pb)) > TOL * r:
@@ -1557,7 +1571,7 @@ def coherent_cluster(chk, cl, ctype, sig, case):
         return
     _, P = got
     su = scripted_defaults(40 * NDIR)
-    with patched((np.random, "random_sample", su.random_sample)):
+    with su.installed(restore_state=False):
         cl.add_random_users(1, 1, None, 0.3)            # later valid call
     cl.add_border_users(2 if n > 1 else 1, 30.0, 0.5)
     users = []
@@ -1627,7 +1641,7 @@ def run_error_path(chk, name, kind, rot):
         for k, f in enumerate(calls[name]):
             before = reported_state(obj)
             how = "accepted"
-            with patched((np.random, "random_sample", su.random_sample)):
+            with su.installed(restore_state=False):
                 try:
                     f()
                 except Exception as e:  # noqa -- free: any type, late, or not at all
@@ -1739,7 +1753,7 @@ def run_entry_points(chk, what, pos, rot):
                 b = cell.Cell3Sec(pos, r, 1, rot)
                 for obj, many in ((a, False), (b, True)):
                     su = scripted_defaults()
-                    with patched((np.random, "random_sample", su.random_sample)):
+                    with su.installed(restore_state=False):
                         for k in (1, 2, 3):
                             if many:
                                 obj.add_random_users_in_sector(2, k, None, 0.3)
@@ -1770,7 +1784,7 @@ def run_entry_points(chk, what, pos, rot):
                     cl = cell.Cluster(cell_radius=r, num_cells=n, pos=pos, cell_type=ctype, rotation=rot)
                     # the first draws address the cell centre: accepted only if min_dist_ratio got lost on the way
                     su = scripted_defaults(40 * NDIR, lead=(0.5, 0.5))
-                    with patched((np.random, "random_sample", su.random_sample)):
+                    with su.installed(restore_state=False):
                         forms[form](cl)
                     bforms[form](cl)
                     first = cl.get_cell_by_id(1).users[0]
@@ -1820,7 +1834,7 @@ def _live_ops():
 def _apply_live(cl, op):
     if op[0] == "rand":
         su = scripted_defaults(40 * NDIR)
-        with patched((np.random, "random_sample", su.random_sample)):
+        with su.installed(restore_state=False):
             cl.add_random_users(op[1], op[2], None, op[3])
         return None
     if op[0] == "border":
